@@ -76,7 +76,110 @@ def extra_cases(names, step):
                 yield c
 
 
+# ------------------------------------------------------------------------------------------
+# a real suspender (bluesky.suspenders.SuspendBoolHigh / SuspendBoolLow with a settle time) installed on the engine
+
+
+SETTLE = 0.5
+
+
+def real_suspender_cases(names, step):
+    """The watched signal trips at callback k, returns to nominal after t1, trips again t2 later (inside or after the
+    settle time of the first release) and returns to nominal for good after t3."""
+    for name in names:
+        n = corpus.n_handles(name)
+        for k in range(2, n, step):
+            for cls, hi, lo in (("SuspendBoolHigh", 1, 0), ("SuspendBoolLow", 0, 1)):
+                for t1, t2, t3 in ((0.3, 0.2, 0.4), (0.3, 0.8, 0.4), (0.1, 0.45, 0.2), (0.2, None, None)):
+                    c = corpus.base_case(name)
+                    c["re"] = {"suspender": {"cls": cls, "sleep": SETTLE, "initial": lo}}
+                    inj = [{"at": k, "do": "sigput", "value": hi}, {"at": k, "after": t1, "do": "sigput", "value": lo}]
+                    if t2 is not None:
+                        inj.append({"at": k, "after": t1 + t2, "do": "sigput", "value": hi})
+                        inj.append({"at": k, "after": t1 + t2 + t3, "do": "sigput", "value": lo})
+                    c["stages"] = [{"do": "call", "inj": inj}]
+                    c["probe"] = True
+                    c["name"] = f"real_suspender:{name}"
+                    yield c
+
+
+def check_real_suspender(case):
+    from ..core import Result
+    from ..engine.harness import run_case
+
+    obs = run_case(case)
+    res = Result()
+    res.klass = f"{case['name']}|{case['re']['suspender']['cls']}"
+    if obs.harness_error:
+        from ..core import HarnessError
+
+        raise HarnessError(obs.harness_error)
+    if any(r["label"] == "sigput" and r.get("state") == "raised" for r in obs.foreign):
+        # SuspenderBase.__make_event gives the loop 0.1 s of real time to create its event; on an overloaded
+        # machine that can expire: nothing can be concluded from such a case
+        res.classes.append("suspender_callback_raised(inconclusive)")
+        return res
+    sp = case["re"]["suspender"]
+    trip = 1 if sp["cls"] == "SuspendBoolHigh" else 0
+    if any(p["state"] != "running" for p in obs.sigputs):
+        # a signal that trips before the plan runs or after it has finished is C31's subject (gating the start)
+        res.classes.append("update_while_not_running(C31)")
+        return res
+    settle = float(sp["sleep"])
+    # intervals during which the documented behaviour keeps the plan suspended: from a trip until `settle` after the
+    # signal's return to nominal, unless it trips again before that
+    intervals = []
+    cur = None
+    for p in obs.sigputs:
+        if p["value"] == trip:
+            if cur is not None and cur["release_at"] is not None and p["vtime"] < cur["release_at"]:
+                cur["release_at"] = None  # tripped again inside the settle time: still suspended
+            elif cur is None or (cur["release_at"] is not None and p["vtime"] >= cur["release_at"]):
+                cur = {"start_total": p["total"], "start_vtime": p["vtime"], "release_at": None}
+                intervals.append(cur)
+        elif cur is not None and cur["release_at"] is None:
+            cur["release_at"] = p["vtime"] + settle
+    SLACK = 12  # loop callbacks the engine may need to take a suspension request up
+    ran = []
+    for hi_, h in enumerate(obs.hook):
+        if id(h["msg"]) not in obs.plog.msg_ids:
+            continue
+        for iv in intervals:
+            end = iv["release_at"]
+            if h["total"] > iv["start_total"] + SLACK and (end is None or h["vtime"] < end - 1e-9):
+                ran.append((hi_, h["msg"].command, round(h["vtime"], 3)))
+    started = any(h["msg"].command == "_start_suspender" for h in obs.hook)
+    res.nontrivial = started and len(obs.sigputs) >= 3
+    res.classes.append("suspension_started" if started else "tripped_too_late_for_a_suspension")
+    F = dict(plan=case["name"], cls=sp["cls"], nputs=len(obs.sigputs))
+    if ran:
+        res.fail(
+            "plan_ran_while_suspender_condition_held",
+            f"plan messages executed while the suspender had to hold the plan (tripped, or inside the {settle}s settle time "
+            f"after a return to nominal): {ran[:6]}; signal updates (value, vtime): {[(p['value'], round(p['vtime'], 3)) for p in obs.sigputs]}",
+            **F,
+        )
+    c0 = obs.calls[0]
+    if obs.stuck or obs.final_state != "idle" or c0.get("outcome") != "return" or not obs.plog.returned:
+        res.fail(
+            "suspended_plan_did_not_complete",
+            f"after the last release the call must finish the plan without returning control: outcome {c0.get('outcome')} "
+            f"{c0.get('exc')!r}, state {obs.final_state}, stuck {obs.stuck}",
+            **F,
+        )
+    return res
+
+
+def check_any(case):
+    if (case.get("re") or {}).get("suspender"):
+        return check_real_suspender(case)
+    return check_case(case)
+
+
 def run(ctx):
+    rs = list(real_suspender_cases(["sleepy", "scan3"] if ctx.quick else ["sleepy", "scan3", "custom_ck", "count2"], ctx.pick(3, 1)))
+    ctx.sweep(rs, check_real_suspender)
+    ctx.extra["real_suspender_cases"] = len(rs)
     names = corpus.corpus_names(ctx.tier)
     cases = list(corpus.single_request_cases(names, ("suspend",), re={"record_interruptions": True}))
     cases += list(extra_cases(["scan3", "custom_ck", "sleepy"] if ctx.quick else names, step=ctx.pick(2, 1)))
@@ -86,4 +189,4 @@ def run(ctx):
 
 
 def replay(case):
-    return check_case(case)
+    return check_any(case)
